@@ -49,7 +49,7 @@ def gen_cases(tier, seed):
         ls[0] = i % 7
         tp = list(bases.type_patterns(nsh)[(i // 2) % (2 ** nsh)]) if i % 2 else None
         shells, classes = bases.rand_basis(rng, ls, types=tp, scale=1.2)
-        pts, pcls = bases.rand_points(rng, shells, int(rng.integers(1, 51)))
+        pts, pcls = bases.rand_points(rng, shells, bases.npts_pick(rng, 51))
         orders = [list(pool[2 * i]), list(pool[2 * i + 1])]
         orders.append([int(x) for x in rng.integers(0, 3, size=3)])  # one triple both back-ends accept
         ntot = sum(bases.nfunc(s) for s in shells)
